@@ -417,6 +417,13 @@ func c03Loops(c *an.Ctx) {
 					split = in
 				}
 			}
+			for _, fnm := range []string{"Cut", "Index", "SplitN", "Split", "IndexRune"} {
+				if an.IsCallToFunc(in, "strings", fnm) && len(an.CallOf(in).Args) > 1 {
+					if a := an.Expr(an.CallOf(in).Args[1]); a == `"="` || a == "61" {
+						split = in
+					}
+				}
+			}
 		})
 		if split == nil {
 			c.Unknown("R7", "doParseQuery: name/value split", pq.Pos(), "no strings.IndexByte(pair, '=') found")
@@ -436,6 +443,46 @@ func c03Loops(c *an.Ctx) {
 				c.Ok("R7", "doParseQuery: a pair that was split into name and value is always stored", split.Pos(), "every path from the split to the next iteration passes the map update")
 			}
 		}
+	}
+	// multipart: every part whose content was read is recorded (FILES / ARGS_POST) before the loop goes on or ends
+	// — also when the body stops inside the part (the tolerated io.ErrUnexpectedEOF): only an error return may skip it
+	if mp := c.Fn("R7", "internal/bodyprocessors.(*multipartBodyProcessor).ProcessRequest"); mp != nil {
+		ei := an.ErrorIndex(mp.Signature)
+		nRead := 0
+		an.Instrs(mp, func(in ssa.Instruction) {
+			if !an.IsCallToFunc(in, "io", "Copy") && !an.IsCallToFunc(in, "io", "ReadAll") {
+				return
+			}
+			lp := an.InnermostLoop(in.Block())
+			if lp == nil {
+				return
+			}
+			nRead++
+			w := an.FindPath(an.PathQuery{Fn: mp, After: in,
+				Stop: func(x ssa.Instruction) bool {
+					cc := an.CallOf(x)
+					if cc == nil {
+						return false
+					}
+					if cc.IsInvoke() {
+						return cc.Method.Name() == "Add"
+					}
+					return cc.StaticCallee() != nil && cc.StaticCallee().Name() == "Add" && strings.Contains(relPkg(cc.StaticCallee()), "collections")
+				},
+				Target: func(x ssa.Instruction) bool {
+					if r, ok := x.(*ssa.Return); ok {
+						return ei < 0 || an.ReturnMayBeNilError(r, ei)
+					}
+					return x.Block() == lp.Header && x == lp.Header.Instrs[0]
+				}})
+			key := fmt.Sprintf("multipart: part read #%d is recorded before the loop goes on or ends", nRead)
+			if w != nil {
+				c.Bad("R7", key, in.Pos(), "after a part's content was read, the iteration can end (next part, or a successful return) without the part having been added to FILES / ARGS_POST: an upload whose body stops inside the file content disappears from the variables while no error variable is set", c.P.TrailString(w)...)
+			} else {
+				c.Ok("R7", key, in.Pos(), "every non-error path passes the collection write")
+			}
+		})
+		c.MinCount("R7", "part reads in the multipart processor", nRead, 2)
 	}
 	// JSON member callback rewinds the shared key buffer on every continuing path
 	var cb *ssa.Function
